@@ -1639,13 +1639,16 @@ async fn emit_event(
 ) {
     #[cfg(rip_verif)]
     rip_kernel::verif::point("sess.before_emit");
-    let _ = sender.send(event.clone());
-    #[cfg(rip_verif)]
-    rip_kernel::verif::point("sess.sent");
+    // Record before publishing: stream handlers subscribe first and snapshot the buffer second, so a
+    // frame that is already on the channel must already be in the buffer (otherwise a subscriber
+    // attaching between the two steps sees it in neither).
     let mut guard = buffer.lock().await;
     guard.push(event.clone());
     #[cfg(rip_verif)]
     rip_kernel::verif::point("sess.recorded");
+    let _ = sender.send(event.clone());
+    #[cfg(rip_verif)]
+    rip_kernel::verif::point("sess.sent");
     let _ = event_log.append(&event);
 }
 
